@@ -10,15 +10,21 @@ theories/Base/Sig.vos theories/Base/Sig.vok theories/Base/Sig.required_vos: theo
 theories/Base/Winnow.vo theories/Base/Winnow.glob theories/Base/Winnow.v.beautified theories/Base/Winnow.required_vo: theories/Base/Winnow.v theories/Base/Bytes.vo
 theories/Base/Winnow.vio: theories/Base/Winnow.v theories/Base/Bytes.vio
 theories/Base/Winnow.vos theories/Base/Winnow.vok theories/Base/Winnow.required_vos: theories/Base/Winnow.v theories/Base/Bytes.vos
+theories/Base/WinnowFacts.vo theories/Base/WinnowFacts.glob theories/Base/WinnowFacts.v.beautified theories/Base/WinnowFacts.required_vo: theories/Base/WinnowFacts.v theories/Base/Bytes.vo theories/Base/Winnow.vo
+theories/Base/WinnowFacts.vio: theories/Base/WinnowFacts.v theories/Base/Bytes.vio theories/Base/Winnow.vio
+theories/Base/WinnowFacts.vos theories/Base/WinnowFacts.vok theories/Base/WinnowFacts.required_vos: theories/Base/WinnowFacts.v theories/Base/Bytes.vos theories/Base/Winnow.vos
 theories/C10/Model.vo theories/C10/Model.glob theories/C10/Model.v.beautified theories/C10/Model.required_vo: theories/C10/Model.v theories/Base/Bytes.vo theories/Base/Winnow.vo
 theories/C10/Model.vio: theories/C10/Model.v theories/Base/Bytes.vio theories/Base/Winnow.vio
 theories/C10/Model.vos theories/C10/Model.vok theories/C10/Model.required_vos: theories/C10/Model.v theories/Base/Bytes.vos theories/Base/Winnow.vos
+theories/C10/Proofs.vo theories/C10/Proofs.glob theories/C10/Proofs.v.beautified theories/C10/Proofs.required_vo: theories/C10/Proofs.v theories/Base/Bytes.vo theories/Base/Winnow.vo theories/Base/WinnowFacts.vo theories/C10/Model.vo theories/C10/Spec.vo
+theories/C10/Proofs.vio: theories/C10/Proofs.v theories/Base/Bytes.vio theories/Base/Winnow.vio theories/Base/WinnowFacts.vio theories/C10/Model.vio theories/C10/Spec.vio
+theories/C10/Proofs.vos theories/C10/Proofs.vok theories/C10/Proofs.required_vos: theories/C10/Proofs.v theories/Base/Bytes.vos theories/Base/Winnow.vos theories/Base/WinnowFacts.vos theories/C10/Model.vos theories/C10/Spec.vos
 theories/C10/Run.vo theories/C10/Run.glob theories/C10/Run.v.beautified theories/C10/Run.required_vo: theories/C10/Run.v theories/Base/Bytes.vo theories/C10/Model.vo theories/C10/Spec.vo
 theories/C10/Run.vio: theories/C10/Run.v theories/Base/Bytes.vio theories/C10/Model.vio theories/C10/Spec.vio
 theories/C10/Run.vos theories/C10/Run.vok theories/C10/Run.required_vos: theories/C10/Run.v theories/Base/Bytes.vos theories/C10/Model.vos theories/C10/Spec.vos
 theories/C10/Spec.vo theories/C10/Spec.glob theories/C10/Spec.v.beautified theories/C10/Spec.required_vo: theories/C10/Spec.v theories/Base/Bytes.vo
 theories/C10/Spec.vio: theories/C10/Spec.v theories/Base/Bytes.vio
 theories/C10/Spec.vos theories/C10/Spec.vok theories/C10/Spec.required_vos: theories/C10/Spec.v theories/Base/Bytes.vos
-theories/Properties/C10.vo theories/Properties/C10.glob theories/Properties/C10.v.beautified theories/Properties/C10.required_vo: theories/Properties/C10.v theories/Base/Bytes.vo theories/C10/Model.vo theories/C10/Spec.vo
-theories/Properties/C10.vio: theories/Properties/C10.v theories/Base/Bytes.vio theories/C10/Model.vio theories/C10/Spec.vio
-theories/Properties/C10.vos theories/Properties/C10.vok theories/Properties/C10.required_vos: theories/Properties/C10.v theories/Base/Bytes.vos theories/C10/Model.vos theories/C10/Spec.vos
+theories/Properties/C10.vo theories/Properties/C10.glob theories/Properties/C10.v.beautified theories/Properties/C10.required_vo: theories/Properties/C10.v theories/Base/Bytes.vo theories/C10/Model.vo theories/C10/Spec.vo theories/C10/Proofs.vo
+theories/Properties/C10.vio: theories/Properties/C10.v theories/Base/Bytes.vio theories/C10/Model.vio theories/C10/Spec.vio theories/C10/Proofs.vio
+theories/Properties/C10.vos theories/Properties/C10.vok theories/Properties/C10.required_vos: theories/Properties/C10.v theories/Base/Bytes.vos theories/C10/Model.vos theories/C10/Spec.vos theories/C10/Proofs.vos
